@@ -23,8 +23,11 @@ REPO = Path(os.environ.get("VERIF_REPO", "/repo"))
 COQ = VERIF / "coq"
 OCAML = VERIF / "ocaml"
 DRIVER = OCAML / "model_driver"
-EVIDENCE = VERIF / "evidence"
-REPLAYS = VERIF / "replays"
+# VERIF_OUT: where evidence and replays go instead of /verif (mutation campaign only: harness/mutate.py runs the checks on
+# scratch copies of the repository in parallel and must neither overwrite the committed evidence nor touch /repo)
+_OUT = Path(os.environ["VERIF_OUT"]) if os.environ.get("VERIF_OUT") else VERIF
+EVIDENCE = _OUT / "evidence"
+REPLAYS = _OUT / "replays"
 CORPUS = VERIF / "corpus"
 SHM = Path("/dev/shm") if Path("/dev/shm").is_dir() else Path(tempfile.gettempdir())
 
@@ -33,7 +36,7 @@ sys.path.insert(0, str(REPO / "src"))
 os.environ.setdefault("PYTHONHASHSEED", "0")
 os.environ["PYTHONPATH"] = str(REPO / "src")
 
-NCPU = min(16, os.cpu_count() or 1)
+NCPU = int(os.environ.get("VERIF_NCPU") or min(16, os.cpu_count() or 1))
 
 
 # --------------------------------------------------------------------------
